@@ -88,6 +88,7 @@ type Ctx struct {
 	freeMemo   map[int][]string
 	NoSlice    bool
 	mu         sync.Mutex
+	defined    map[string]string
 }
 
 func NewCtx() *Ctx {
@@ -149,9 +150,33 @@ func (c *Ctx) Define(prefix string, t Term) Term {
 	if len(t.S) < 24 && !strings.Contains(t.S, " ") {
 		return t
 	}
+	// hash-consing: the same term always gets the same name, so syntactically
+	// equal facts are recognised as equal (an invariant over untouched data is
+	// the very term that was assumed at entry)
+	if c.defined == nil {
+		c.defined = map[string]string{}
+	}
+	key := string(t.Sort) + "\x00" + t.S
+	if n, ok := c.defined[key]; ok {
+		return Term{n, t.Sort}
+	}
 	name := c.uniq(prefix)
+	c.defined[key] = name
 	c.lines = append(c.lines, fmt.Sprintf("(define-fun %s () %s %s)", name, t.Sort, t.S))
 	return Term{name, t.Sort}
+}
+
+// Assumed reports whether exactly this term is among the first n assumptions.
+func (c *Ctx) Assumed(t Term, n int) bool {
+	if n > len(c.Assumes) {
+		n = len(c.Assumes)
+	}
+	for i := 0; i < n; i++ {
+		if c.Assumes[i].S == t.S {
+			return true
+		}
+	}
+	return false
 }
 
 func (c *Ctx) UF(name string, args []Sort, res Sort) string {
